@@ -531,7 +531,7 @@ func (resp *c12Resp) viol(class string, feats map[string]string, wit map[string]
 		t += " " + k + "=" + feats[k]
 	}
 	resp.Tally[t]++
-	if resp.Tally[t] <= 3 && len(resp.Viols) < 60 { // a few witnesses per (class, features) and batch
+	if resp.Tally[t] <= 3 { // a few witnesses per (class, features) and batch, however many keys there are
 		resp.Viols = append(resp.Viols, c12Viol{class, feats, wit})
 	} else {
 		resp.Viols = append(resp.Viols, c12Viol{class, feats, nil})
